@@ -414,6 +414,11 @@ def run_ob(work, ob, idx):
         r.wall = time.time() - t0
         return r
     r.nprops = len(props)
+    bad = [p for p in props if p.get("status") not in ("SUCCESS", "FAILURE")]
+    if bad or status == "error":
+        r.reason = "cbmc error (status=%s): %s; %d properties undecided" % (status, "; ".join(errors)[:500], len(bad))
+        r.wall = time.time() - t0
+        return r
     failed = [p for p in props if p.get("status") != "SUCCESS"]
     allwit = [p for p in props if p.get("description", "").startswith("WITNESS")]
     wit = [p for p in failed if p.get("description", "").startswith("WITNESS")]
